@@ -206,10 +206,11 @@ ROUTES = [
     {"en": ["", "menu", "french-fries", ":n"], "fr": ["", "menu", "frites", ":n"], "de": ["", "menu", "pommes", ":n"]},
     {"en": ["", "news", "?page"], "fr": ["", "nouvelles", "?page"], "de": ["", "neues", "?page"]},       # trailing optional param (present / absent)
     {"en": ["", "post", "?n", "edit"], "fr": ["", "billet", "?n", "modifier"], "de": ["", "beitrag", "?n", "aendern"]},   # optional param before a static segment
+    {"en": ["", "tags", ":tag"], "fr": ["", "tags", ":tag"], "de": ["", "schlagworte", ":tag"]},           # a parameter whose value equals the segment before it (`/tags/tags`)
 ]
 OPTIONAL_PRESENT = [False, True]
-PARAMS = {"user": "bob", "repo": "site", "id": "7", "n": "42", "page": "3"}
-SPLATS = [[], ["a"], ["a", "b.html"]]
+PARAMS = {"user": "bob", "repo": "site", "id": "7", "n": "42", "page": "3", "tag": "tags"}
+SPLATS = [[], ["a"], ["a", "b.html"], ["a", "a"]]          # (the last: two equal consecutive segments are two segments)
 
 
 def _seg_value(x):
